@@ -159,6 +159,7 @@ def gen(region, seed, size='quick'):
         else:
             routing.append(tm())
     cfg['routing'] = routing
+    cfg['_fixroute'] = True
     # process-based routing: arrivals must be at the first node of the route; keep arrivals anywhere (Ciw allows it)
     # priorities
     if k > 1 and (P('prio', 0.5)):
@@ -188,6 +189,11 @@ def gen(region, seed, size='quick'):
                        for b in range(k)] for a in range(k)]
         if all(x is None for row in cfg['cct'] for x in row):
             cfg['cct'][0][1] = _vals(rng, 1, 3)
+    if (cfg.get('ccm') is not None or cfg.get('cct') is not None) and any(r['kind'] in ('pb', 'fpb') for r in routing):
+        # a customer that changes class is handed to the new class's router: route lists must be compatible
+        for c in range(1, k):
+            routing[c] = routing[0]
+    cfg.pop('_fixroute', None)
     if P('ps'):
         cfg['ps'] = [(rng.random() < 0.7) and not isinstance(servers[j], dict) for j in range(n)]
         if not any(cfg['ps']):
